@@ -11,7 +11,7 @@ def siteNames : List (String × Site) :=
    ("fs_assert", .fs_assert), ("fs_append", .fs_append), ("fs_appendleft", .fs_appendleft), ("bi_set", .bi_set),
    ("cy_ping", .cy_ping), ("se_create", .se_create), ("se_acqIn", .se_acqIn), ("sx_relOut", .sx_relOut),
    ("run_len", .run_len), ("idle_wait", .idle_wait), ("idle_clear", .idle_clear), ("cyc_pop", .cyc_pop),
-   ("cyc_append", .cyc_append), ("user_body", .user_body), ("st_contains", .st_contains), ("sy_relIn", .sy_relIn),
+   ("cyc_append", .cyc_append), ("user_body", .user_body), ("st_contains", .st_contains), ("sch_contains", .sch_contains), ("sy_relIn", .sy_relIn),
    ("sy_acqOut", .sy_acqOut), ("rs_put", .rs_put), ("clt_pong", .clt_pong), ("clt_pop", .clt_pop),
    ("clt_call", .clt_call), ("sel_select", .sel_select), ("sel_pong", .sel_pong), ("sel_empty", .sel_empty),
    ("sel_get", .sel_get)]
@@ -39,8 +39,9 @@ def parseEv (j : J) : Except String Ev := do
   | [t, s, o] => pure { tid := ← t.asNat, site := ← parseSite (← s.asStr), timeout := (← o.asNat) ≠ 0 }
   | _ => throw "trace entry must be [tid, site, timeout]"
 
-def parseBools (j : J) : Except String (List Bool) := do
-  (← j.asNats).mapM fun n => pure (n ≠ 0)
+/-- user program items: 0 = `yield False`, 1 = `yield 0`, 2+v = `schedule(v)` inside the slice -/
+def parseBools (j : J) : Except String (List UItem) := do
+  (← j.asNats).mapM fun n => pure (if n = 0 then UItem.yieldF else if n = 1 then UItem.yield0 else UItem.sched (n - 2))
 
 /-- structural description of a task, independent of allocation order -/
 def descTask (s : State) (fuel : Nat) (t : TaskId) : String :=
